@@ -156,9 +156,16 @@ struct F {
       Ctx<Q, U, T, N> cx{name, ""};
       // per-slot distinct values (Appendix B): +-p_i/8 + 2^-20, i-th odd prime; two sign patterns
       static const int primes[9] = {3, 5, 7, 11, 13, 17, 19, 23, 29};
-      for (int pat = 0; pat < 2; pat++) {
+      // pat 2: zeros of both signs in alternate slots (an affine unit turns a zero into a non-zero number: "zero reads zero in
+      // every unit" is false); pat 3: the values of an exactly symmetric tensor
+      for (int pat = 0; pat < 4; pat++) {
         T v[9];
+        static const int sym[9] = {0, 1, 2, 1, 3, 4, 2, 4, 5};
         for (int i = 0; i < 9; i++) v[i] = (T)(((i + pat) % 2 ? -1 : 1) * (primes[i] / 8.0L + 0x1p-20L));
+        if (pat == 2)
+          for (int i = 0; i < 9; i += 2) v[i] = (i % 4) ? -(T)0 : (T)0;
+        if (pat == 3)
+          for (int i = 0; i < 9; i++) v[i] = (T)(primes[sym[i]] / 8.0L + 0x1p-20L);
         PerUnitStatic<Q, U, T, N> st{&cx, v};
         vf::for_each_enumerator<U>(st);
         const V raw = vf::RawMake<V>::make(v);
